@@ -419,8 +419,9 @@ def discarded_generator_call(prog, fi):
             continue
         c = st.value
         target = None
-        if isinstance(c.func, ast.Name):
-            r = prog.resolve_name(fi.module, c.func.id)
+        dn = A.unparse(c.func) if isinstance(c.func, (ast.Name, ast.Attribute)) else ""
+        if dn and all(p.isidentifier() for p in dn.split(".")) and dn.split(".")[0] not in ("self", "cls"):
+            r = prog.resolve_name(fi.module, dn)
             target = r if hasattr(r, "node") and isinstance(getattr(r, "node", None), (ast.FunctionDef, ast.AsyncFunctionDef)) else None
         elif isinstance(c.func, ast.Attribute) and isinstance(c.func.value, ast.Name) and fi.cls is not None and fi.params() and c.func.value.id == fi.params()[0]:
             target = prog.lookup_attr(fi.cls, c.func.attr)[1]
